@@ -151,6 +151,15 @@ func (c *Ctx) Prelude() string {
 	return b.String()
 }
 
+func (c *Ctx) HasQuantAxioms() bool {
+	for _, s := range c.axioms {
+		if strings.Contains(s, "(forall ") || strings.Contains(s, "(exists ") {
+			return true
+		}
+	}
+	return false
+}
+
 // PreludeNoQuantAxioms is Prelude without quantified axioms (used for the weakened query).
 func (c *Ctx) PreludeNoQuantAxioms() string {
 	var b strings.Builder
